@@ -36,7 +36,9 @@ TOGGLES = ("FixStaleMax", "FixReinitBound")
 
 
 def load_toggles():
-    with open(os.path.join(vlib.SPEC, "z/tree_toggles.json")) as f:
+    # VERIF_TREE_TOGGLES: another toggle file, for experiments against a scratch worktree (VERIF_REPO)
+    path = os.environ.get("VERIF_TREE_TOGGLES") or os.path.join(vlib.SPEC, "z/tree_toggles.json")
+    with open(path) as f:
         j = json.load(f)
     return {k: bool(j[k]) for k in TOGGLES}
 
@@ -137,7 +139,24 @@ def design_check(ctx, pid, toggles):
         text = cfg_text(name, tog)
         r = vlib.tlc(ctx, SPEC_FILES, "TreePages", text, name="mc-%s-%d" % (mode, attempt), timeout=tmo)
         if r.ok:
-            return r, tog, leads, cfg_consts(text)
+            extra = []
+            if ctx.tier == "thorough":
+                # second exhaustive configuration: fewer keys and operations, three value ids
+                t2 = cfg_text("MC_TreePages_%s_thorough_v3.cfg" % mode, tog)
+                r2 = vlib.tlc(ctx, SPEC_FILES, "TreePages", t2, name="mc-%s-v3" % mode, timeout=tmo)
+                if not r2.ok:
+                    if r2.violated in REPAIR_OF:
+                        ops = counterexample_ops(r2.out)
+                        log("design lead (second configuration): %s violated: %s" % (r2.violated, fmt_ops(ops, 30)))
+                        leads.append({"invariant": r2.violated, "ops": ops, "toggles": dict(tog),
+                                      "consts": cfg_consts(t2), "generated": r2.generated, "distinct": r2.distinct})
+                    else:
+                        raise Inconclusive("design spec TreePages.tla (second thorough configuration) failed: %s\n%s" %
+                                           (r2.violated or r2.error, r2.out[-1200:]))
+                extra.append(dict(cfg_consts(t2), generated=r2.generated, distinct=r2.distinct, depth=r2.depth))
+            consts = cfg_consts(text)
+            consts["_extra_runs"] = extra
+            return r, tog, leads, consts
         if not r.violated or r.violated not in REPAIR_OF:
             raise Inconclusive("design spec TreePages.tla (%s, toggles %s) failed: %s\n%s" %
                                (name, tog, r.violated or r.error, r.out[-1200:]))
@@ -160,8 +179,10 @@ def design_check(ctx, pid, toggles):
 
 def simulate(ctx, module, cfgname, toggles, num, depth, name, **consts):
     text = cfg_text(cfgname, toggles if module == "TreePages" else {}, **consts)
-    r = vlib.tlc(ctx, SPEC_FILES, module, text, name=name, workers=1, timeout=ctx.pick(300, 900),
-                 simulate={"num": num, "depth": depth, "file": "beh"})
+    # -simulate num= is per worker
+    w = 1 if num < 400 else 4
+    r = vlib.tlc(ctx, SPEC_FILES, module, text, name=name, workers=w, timeout=ctx.pick(300, 900),
+                 simulate={"num": (num + w - 1) // w, "depth": depth, "file": "beh"})
     c = cfg_consts(text)
     behs = [behaviour_ops(fn) for fn in vlib.list_behaviour_files(r.dir, "beh")]
     lead = None
@@ -299,7 +320,7 @@ def validate(ctx, trace, toggles, name="validate", workdir=None):
     shutil.copy(trace, os.path.join(d, "trace.ndjson"))
     cfg = cfg_text("TraceTree.cfg", toggles)
     r = vlib.tlc(ctx, SPEC_FILES, "TraceTree", cfg, workers=1, timeout=ctx.pick(600, 1500), workdir=d,
-                 heap="12g")
+                 heap="6g")
     if not r.ok:
         raise Inconclusive("trace validation did not run: %s\n%s" % (r.error or r.violated, r.out[-1500:]))
     bad, drift, cnt = vlib.obs_result(r.out)
@@ -418,9 +439,7 @@ def replay_only(ctx, pid, path, toggles):
     bad, drift, counts = validate(ctx, path, toggles, name="replay")
     totals = report(ctx, pid, [(path, bad, drift, counts)])
     log("replay of %s: %d rejected events for %s" % (path, sum(totals.values()), pid))
-    vlib.write_evidence(ctx, "model_checking", {
-        "states": 0, "transitions": 0, "traces_validated_against_impl": 1,
-        "samples": [], "rule": "replay of a saved trace through the observer only"}, ["replay mode"])
+    # (no evidence file in replay mode: it would overwrite the evidence of the last full run)
 
 
 def run(ctx, pid):
@@ -437,7 +456,7 @@ def run(ctx, pid):
     _lock_sub(ctx)
     from concurrent.futures import ThreadPoolExecutor
     bg = ThreadPoolExecutor(max_workers=1)
-    fut_map = bg.submit(simulate, ctx, "TreeMap", "SIM_TreeMap.cfg", {}, ctx.pick(60, 800),
+    fut_map = bg.submit(simulate, ctx, "TreeMap", "SIM_TreeMap.cfg", {}, ctx.pick(60, 500),
                         ctx.pick(40, 80), "sim-map")
     mc, passed_toggles, leads, mc_consts = design_check(ctx, pid, toggles)
     modelled = sorted(k for k in TOGGLES if passed_toggles[k] and not toggles[k])
@@ -446,7 +465,7 @@ def run(ctx, pid):
     scen = []
     for ld in leads:
         scen += lead_scenarios(ld, pers_mode)
-    nsim = ctx.pick(150, 2000)
+    nsim = ctx.pick(150, 1500)
     behs_p, c_p, sim_p, lead_p = simulate(ctx, "TreePages", "SIM_TreePages.cfg", passed_toggles, nsim,
                                           ctx.pick(26, 42), "sim-pages", Persistent=pers_mode,
                                           WithReset=not pers_mode)
@@ -457,7 +476,7 @@ def run(ctx, pid):
     if pers_mode:
         scen += model_scenarios(behs_p, c_p, "model-pages", True, rnd)
         scen += model_scenarios([with_reopens(b, rnd, 0.15) for b in behs_m], c_m, "model-map", True, rnd)
-        scen += random_scenarios(ctx.pick(110, 1800), 1.0, rnd, quick)
+        scen += random_scenarios(ctx.pick(110, 1400), 1.0, rnd, quick)
         scen += fullfile_scenarios(ctx.pick([4096, 80], PAGE_SIZES), rnd)
     else:
         scen += model_scenarios(behs_p, c_p, "model-pages", False, rnd)
@@ -465,7 +484,7 @@ def run(ctx, pid):
         for i, b in enumerate(behs_m):
             pers = i % 5 == 4
             scen += model_scenarios([with_reopens(b, rnd, 0.1) if pers else b], c_m, "model-map", pers, rnd)
-        scen += random_scenarios(ctx.pick(120, 2000), 0.2, rnd, quick)
+        scen += random_scenarios(ctx.pick(120, 1600), 0.2, rnd, quick)
     # 3. drive the real tree (several driver processes side by side: file-backed trees spend their
     #    time in msync; the design leads all go to the first process, so their trace ids are 1..)
     nproc = ctx.pick(4, 6)
@@ -573,7 +592,8 @@ def run(ctx, pid):
         "traces_by_source": by_src,
         "model_behaviours_replayed": len(behs_p) + len(behs_m),
         "simulated_states_checked": sim_p.generated,
-        "design_constants": mc_consts,
+        "design_constants": {k: v for k, v in mc_consts.items() if not k.startswith("_")},
+        "design_extra_exhaustive_runs": mc_consts.get("_extra_runs", []),
         "design_toggles_in_code": toggles,
         "design_repairs_modelled_for_exploration": modelled,
         "design_counterexamples": [{"invariant": ld["invariant"], "ops": fmt_ops(ld["ops"], 30)} for ld in leads],
